@@ -13,13 +13,15 @@ Theorem C16_invariant_holds_initially : forall nparts pks, Inv (init nparts pks)
 Proof. exact Inv_init. Qed.
 Print Assumptions C16_invariant_holds_initially.
 
-(* every operation of a history (ApplyEdits of a statement, TRUNCATE, CREATE INDEX with its table rewrite, DROP INDEX)
-   preserves it, for every hash-partition function, under the guard the editor establishes ([step_ok]: an added
-   row's primary key is absent once the statement's deletes are applied; partitions in range; no RENAME INDEX, no CREATE INDEX whose
-   rewrite fails) *)
+(* [Good]: [Inv], plus: a name without a storage key holds no storage, every storage is sorted on its index columns,
+   and every storage key is the name of a live index (no orphaned storage).
+   Every operation of a history (ApplyEdits of a statement, TRUNCATE, CREATE INDEX with its table rewrite, DROP INDEX,
+   RENAME INDEX — index names in any letter case) RUNS (no panic) and preserves it, for every hash-partition function,
+   under the guard the editor establishes ([step_ok]: an added row's primary key is absent once the statement's
+   deletes are applied; partitions in range; no CREATE INDEX whose rewrite fails) *)
 Theorem C16_invariant_preserved_by_every_operation :
-  forall hp td o td', Inv td -> step_ok hp td o = true -> step hp td o = Ok td' -> Inv td'.
-Proof. exact Inv_step. Qed.
+  forall hp td o, Good td -> step_ok hp td o = true -> exists td', step hp td o = Ok td' /\ Good td'.
+Proof. exact Good_step. Qed.
 Print Assumptions C16_invariant_preserved_by_every_operation.
 
 (* sort.Sort is free to call Swap in any order it likes: ANY sequence of Swap calls preserves the invariant *)
@@ -28,13 +30,25 @@ Proof. exact Inv_do_swaps. Qed.
 Print Assumptions C16_any_swap_sequence_preserves_invariant.
 
 Theorem C16_invariant_holds_after_every_history :
-  forall hp nparts pks h td,
-    hist_ok hp (init nparts pks) h = true -> run hp (init nparts pks) h = Ok td -> Inv td.
-Proof. intros hp n pks h td. exact (Inv_run hp h (init n pks) td (Inv_init n pks)). Qed.
+  forall hp nparts pks h,
+    hist_ok hp (init nparts pks) h = true -> exists td, run hp (init nparts pks) h = Ok td /\ Inv td.
+Proof.
+  intros hp n pks h H. destruct (Good_run hp h (init n pks) (Good_init n pks) H) as (td & E & G).
+  exists td. split; [exact E | apply G].
+Qed.
 Print Assumptions C16_invariant_holds_after_every_history.
 
-(* hence the property: after any such history, a lookup through any index returns exactly the current rows whose
-   key satisfies the lookup predicate — none missing, none stale, none duplicated (equality of bags) *)
+(* in particular no such history panics, whatever the letter case of its index names (since /repo b327559e5) *)
+Theorem C16_no_panic_whatever_the_index_names :
+  forall hp nparts pks h, hist_ok hp (init nparts pks) h = true -> run hp (init nparts pks) h <> Panic.
+Proof.
+  intros hp n pks h H. destruct (Good_run hp h (init n pks) (Good_init n pks) H) as (td & E & _). rewrite E. discriminate.
+Qed.
+Print Assumptions C16_no_panic_whatever_the_index_names.
+
+(* hence the property: after any such history — RENAME INDEX and mixed-case names included — a lookup through any
+   index returns exactly the current rows whose key satisfies the lookup predicate: none missing, none stale, none
+   duplicated (equality of bags) *)
 Theorem C16_index_lookup_equals_filtered_scan :
   forall hp nparts pks h td k d (p : row -> bool),
     hist_ok hp (init nparts pks) h = true -> run hp (init nparts pks) h = Ok td ->
@@ -42,28 +56,23 @@ Theorem C16_index_lookup_equals_filtered_scan :
     Permutation (index_lookup td (iname d) p) (filter (fun r => p (key_of d r)) (all_rows td)).
 Proof.
   intros hp n pks h td k d p H1 H2 H3.
-  exact (lookup_eq_scan td k d p (Inv_run hp h (init n pks) td (Inv_init n pks) H1 H2) H3).
+  destruct (Good_run hp h (init n pks) (Good_init n pks) H1) as (td' & E & G).
+  rewrite H2 in E. injection E as <-. exact (lookup_eq_scan td k d p (proj1 G) H3).
 Qed.
 Print Assumptions C16_index_lookup_equals_filtered_scan.
 
-(* after every history the storage of every index is sorted on the index columns (NULL first): any two entries, the
-   earlier one's key is not greater than the later one's (sortSecondaryIndexes runs at the end of every ApplyEdits) *)
+(* and the storage of every index is sorted on the index columns (NULL first): any two entries, the earlier one's key
+   is not greater than the later one's (sortSecondaryIndexes runs at the end of every ApplyEdits) *)
 Theorem C16_index_storage_sorted_after_every_history :
   forall hp nparts pks h td k d,
     hist_ok hp (init nparts pks) h = true -> run hp (init nparts pks) h = Ok td ->
     In (k, d) (defs td) -> sorted_by (nsort d) (stor td (iname d)).
 Proof.
   intros hp n pks h td k d H1 H2 H3.
-  exact (proj2 (proj2 (Good_run hp h (init n pks) td (Good_init n pks) H1 H2)) k d H3).
+  destruct (Good_run hp h (init n pks) (Good_init n pks) H1) as (td' & E & G).
+  rewrite H2 in E. injection E as <-. exact (proj1 (proj2 (proj2 G)) k d H3).
 Qed.
 Print Assumptions C16_index_storage_sorted_after_every_history.
-
-(* a history all of whose index names are lower-case never panics (compare the first refutation below) *)
-Theorem C16_no_panic_with_lower_case_index_names :
-  forall hp nparts pks h,
-    hist_ok hp (init nparts pks) h = true -> forallb op_lower h = true -> run hp (init nparts pks) h <> Panic.
-Proof. intros hp n pks h. exact (no_panic hp h (init n pks) (LowInv_init n pks)). Qed.
-Print Assumptions C16_no_panic_with_lower_case_index_names.
 
 (* ---- what the faithful model does NOT satisfy (each witness is replayed on the implementation by the driver) ---- *)
 
@@ -71,31 +80,27 @@ Definition c16_r1 : row := [VInt 1; VInt 2; VStr [97%N]; VInt 3].
 Definition c16_r2 : row := [VInt 2; VInt 2; VStr [98%N]; VInt 4].
 Definition c16_hp0 : row -> nat := fun _ => 0.
 
-(* DROP INDEX deletes the storage under the lower-cased name: the storage of an index created with an upper-case
-   letter survives, and the next statement's sortSecondaryIndexes finds storage without an index and panics *)
-Theorem C16_dml_after_drop_of_mixed_case_index_panics_refuted :
-  exists h, hist_ok c16_hp0 (init 1 [0]) h = true /\ run c16_hp0 (init 1 [0]) h = Panic.
-Proof.
-  exists [OCreate {| iname := (12%N, true); icols := [1; 3; 0]; nsort := 2 |}; OApply [] [c16_r1];
-          ODrop (12%N, true); OApply [] [c16_r2]].
-  split; vm_compute; reflexivity.
-Qed.
-Print Assumptions C16_dml_after_drop_of_mixed_case_index_panics_refuted.
+(* the two histories that broke the model before /repo b327559e5 now run and answer correctly: dropping an index
+   created with an upper-case letter removes its storage (the next statement no longer panics) ... *)
+Example C16_drop_of_mixed_case_index_then_dml_runs :
+  let h := [OCreate {| iname := (12%N, true); icols := [1; 3; 0]; nsort := 2 |}; OApply [] [c16_r1];
+            ODrop (12%N, true); OApply [] [c16_r2]] in
+  hist_ok c16_hp0 (init 1 [0]) h = true /\
+  match run c16_hp0 (init 1 [0]) h with Ok td => all_rows td = [c16_r1; c16_r2] /\ skeys td = [] | Panic => False end.
+Proof. split; vm_compute; [reflexivity | split; reflexivity]. Qed.
+Print Assumptions C16_drop_of_mixed_case_index_then_dml_runs.
 
-(* RENAME INDEX re-keys the definition and changes Index.Name but leaves the storage under the old name: a lookup
-   through the renamed index finds nothing although the table has rows *)
-Theorem C16_rename_index_loses_every_row_refuted :
-  exists h, match run c16_hp0 (init 1 [0]) h with
-            | Ok td => def_named (defs td) (100%N, false) <> None /\
-                       index_lookup td (100%N, false) (fun _ => true) = [] /\ all_rows td = [c16_r1; c16_r2]
-            | Panic => False
-            end.
-Proof.
-  exists [OCreate {| iname := (1%N, false); icols := [1; 0]; nsort := 1 |}; OApply [] [c16_r1; c16_r2];
-          ORename (1%N, false) (100%N, false)].
-  vm_compute. split; [discriminate | split; reflexivity].
-Qed.
-Print Assumptions C16_rename_index_loses_every_row_refuted.
+(* ... and RENAME INDEX moves the storage to the new name: a lookup through the renamed index finds every row *)
+Example C16_rename_index_keeps_every_row :
+  let h := [OCreate {| iname := (1%N, false); icols := [1; 0]; nsort := 1 |}; OApply [] [c16_r1; c16_r2];
+            ORename (1%N, false) (100%N, false)] in
+  hist_ok c16_hp0 (init 1 [0]) h = true /\
+  match run c16_hp0 (init 1 [0]) h with
+  | Ok td => index_lookup td (100%N, false) (fun _ => true) = [c16_r1; c16_r2] /\ index_lookup td (1%N, false) (fun _ => true) = []
+  | Panic => False
+  end.
+Proof. split; vm_compute; [reflexivity | split; reflexivity]. Qed.
+Print Assumptions C16_rename_index_keeps_every_row.
 
 (* a CREATE INDEX whose rewrite fails (e.g. UNIQUE on a prefix that existing rows share) stays registered with no
    storage: a lookup through it finds nothing although the table has rows *)
@@ -125,11 +130,8 @@ Proof.
   assert (H : hist_ok c16_hp0 (init 1 [0])
                 [OCreate {| iname := (1%N, false); icols := [1; 0]; nsort := 1 |}; OApply [] [c16_r1]] = true)
     by (vm_compute; reflexivity).
-  pose proof (fun td => Inv_run c16_hp0 _ (init 1 [0]) td (Inv_init 1 [0]) H) as I.
-  destruct (run c16_hp0 (init 1 [0]) [OCreate {| iname := (1%N, false); icols := [1; 0]; nsort := 1 |}; OApply [] [c16_r1]])
-    as [t|] eqn:E.
-  - split; [apply I; reflexivity|]. revert E. vm_compute. intros E. injection E as <-. reflexivity.
-  - revert E. vm_compute. discriminate.
+  destruct (Good_run c16_hp0 _ (init 1 [0]) (Good_init 1 [0]) H) as (t & E & G). rewrite E.
+  split; [apply G|]. revert E. vm_compute. intros E. injection E as <-. reflexivity.
 Qed.
 Print Assumptions C16_insert_helper_overwrite_duplicates_entry_refuted.
 
